@@ -145,8 +145,8 @@ pub fn install_panic_hook() {
                 .location()
                 .map(|l| {
                     let f = l.file();
-                    let f = match f.rfind("/out/generate_") {
-                        Some(i) => format!("unic-langid-impl/src/bin/{}", &f[i + 5..]),
+                    let f = match ["/out/layout/", "/out/likely/"].iter().find_map(|m| f.rfind(m).map(|i| i + m.len())) {
+                        Some(i) => format!("unic-langid-impl/src/bin/{}", &f[i..]),
                         None => f.to_string(),
                     };
                     format!("{}:{}", f, l.line())
